@@ -755,6 +755,11 @@ func (e *Engine) MessageReceived(ctx context.Context, p peer.ID, m bsmsg.BitSwap
 	e.lock.Lock()
 
 	if m.Full() {
+		// A full wantlist replaces the previous one: drop the old entries and
+		// the tasks still queued for them.
+		for _, entry := range e.peerLedger.WantlistForPeer(p) {
+			e.peerRequestQueue.Remove(entry.Cid, p)
+		}
 		e.peerLedger.ClearPeerWantlist(p)
 	}
 
